@@ -30,12 +30,19 @@ def build_replayer(repo, scratch):
         shutil.copy(os.path.join(repo, f), os.path.join(lib, f))
     toml = open(os.path.join(d, 'Cargo.toml')).read().replace('path = "/repo"', 'path = "%s"' % lib)
     open(os.path.join(d, 'Cargo.toml'), 'w').write(toml)
-    env = dict(os.environ, CARGO_NET_OFFLINE='true', CARGO_TARGET_DIR=os.path.join(d, 'target'))
+    # dependencies are compiled once into a shared cache (cargo locks it); only the library copy is rebuilt per run
+    tdir = os.path.join(HERE, '.cache', 'replay_target')
+    os.makedirs(tdir, exist_ok=True)
+    env = dict(os.environ, CARGO_NET_OFFLINE='true', CARGO_TARGET_DIR=tdir)
     env.pop('RUSTUP_TOOLCHAIN', None)
-    r = subprocess.run(['cargo', 'build', '--offline', '-q'], cwd=d, env=env, stdout=subprocess.PIPE, stderr=subprocess.STDOUT, text=True)
-    if r.returncode != 0:
-        return None
-    p = os.path.join(d, 'target', 'debug', 'fpreplay')
+    import fcntl
+    with open(os.path.join(tdir, '.lock'), 'w') as lk:
+        fcntl.flock(lk, fcntl.LOCK_EX)   # build + copy must not interleave with another check's build in the shared cache
+        r = subprocess.run(['cargo', 'build', '--offline', '-q'], cwd=d, env=env, stdout=subprocess.PIPE, stderr=subprocess.STDOUT, text=True)
+        if r.returncode != 0:
+            return None
+        p = os.path.join(d, 'fpreplay.bin')
+        shutil.copy(os.path.join(tdir, 'debug', 'fpreplay'), p)
     open(os.path.join(d, 'bin_path'), 'w').write(p)
     return p
 
@@ -167,6 +174,37 @@ def find(pid, f, repo, scratch):
             return
 
 
+def family_table():
+    """framed-mode programs with several destinations: the reported table must list exactly the distinct (destination,
+    terminator) pairs of the expression, each under the tag its printer definition carries"""
+    import itertools
+    acts = [('-print0', 'Stdout(Some(\'\\0\'))'), ('-fprint a', 'File("a", Some(\'\\n\'))'), ('-fprint b', 'File("b", Some(\'\\n\'))'),
+            ('-fprint0 a', 'File("a", Some(\'\\0\'))'), ('-fprintf a x', 'File("a", None)'), ('-printf x', 'Stdout(None)')]
+    cases = []
+    for n in (1, 2, 3):
+        for combo in itertools.product(acts, repeat=n):
+            cases.append(combo)
+    for combo in cases:
+        inp = ' -o '.join(a for a, _ in combo)
+        want = sorted(set(t for _, t in combo))
+
+        def bad(g, want=want):
+            if g[0] != 'OK' or len(g) < 3:
+                return g[0] == 'OK'
+            entries = [e for e in g[2].split(';') if e]
+            tags = {}
+            for e in entries:
+                k, _, v = e.partition('=')
+                tags[int(k)] = v
+            if sorted(tags.values()) != want:
+                return True
+            for tag in tags:     # every tag of the table is the tag of a printer definition of the program
+                if ('(%%lf3:print:%d (lambda (line) (%%lf3:frame:2 line #\\x%02x)))' % (tag, tag)) not in g[1]:
+                    return True
+            return False
+        yield dict(op='compile', input=inp, expect='table = %s, each under the tag of its printer definition' % want, bad=bad)
+
+
 def family_determinism():
     """the same input compiled many times in one process (every HashMap instance has its own random hash keys)"""
     inputs = ['-name a -o -iname a -o -name b -o -iname b', '( -name *.log -o -ipath *.log ) -fprint found.txt',
@@ -269,6 +307,7 @@ def family_hostile():
 
 
 GENERATED = {
+    'ASSUME.printer_map': family_table, 'C10.table.keys': family_table,
     'C09.top.wrap_decision': family_wrap, 'C19.action.iff': family_wrap, 'C09.emit.structure': family_wrap,
     'C12.refusal.iff': family_refusal, 'C12.top.iff': family_refusal,
     'C11.body.matcher_ref': family_numbers, 'C13.top.threads_value': family_numbers, 'C13.update.threads': family_numbers,
@@ -333,6 +372,24 @@ CANNED = {
         dict(op='parse', input='-depth -threads 2', expect='depth: true', bad=lambda g: g[0] == 'OK' and 'depth: true' not in g[1]),
     ],
 }
+
+
+# functions left outside the verifier (assumed contracts) that get a BOUNDED stand-in: the family is run on every check
+BOUNDED_STANDINS = {
+    'C10': [('BOUNDED.printer_map', 'ASSUME.printer_map',
+             'DistributedSchemeManager::printer_map (iterator over the hash map: external_body) — bounded stand-in: all expressions of up to 3 '
+             'output actions over 6 destination/terminator kinds; the table must be the inverse of the tag map')],
+}
+
+
+def bounded_standins(pid, repo, scratch):
+    out = []
+    for name, key, claim in BOUNDED_STANDINS.get(pid, []):
+        f = dict(id=name, clause=key, kind='bounded', fn='SchemeManager for DistributedSchemeManager::printer_map', cfg='replay',
+                 message=claim, rendered='', repo_file=None, repo_line=None, expr='')
+        find(pid, f, repo, scratch)
+        out.append((name, claim, f))
+    return out
 
 
 def replay(record, repo):
